@@ -17,12 +17,21 @@ theorem pending_of_key {s s' : St} {k : Nat} (h : s'.key k = s.key k) (hp : Pend
 theorem retry_armed (s : St) (g i n : Nat) (y : G) (x : Inst) (r : Rec)
     (hy : s.gens[g]? = some y) (hx : y.insts[i]? = some x) (hst : x.st = .closed)
     (hk : s.key y.key = some r) (hid : r.id = x.rid) (hg : r.gen = g) (hc : r.cur = some i)
-    (hf : x.failed = true) (hcfg : retryCfg s = some n) (hbo : r.bo < n) :
+    (hf : x.failed = true) (hcfg : retryCfg s = some n) (hbo : armOk s n r x = true) :
     ∃ s', step s (.record g i) = some s' ∧ Pending s' y.key := by
   refine ⟨recordInst s g i x y.key, by simp [step, hy, hx, hst], ?_⟩
   unfold recordInst
   simp only [hk, hid, hg, hc, and_self, if_true, hcfg, hf, hbo]
   simp [Pending]
+
+/-- `WithBackoff` (scripted): the backoff has not said Stop while fewer than `n` failures were counted -/
+theorem armOk_count (s : St) (n : Nat) (r : Rec) (x : Inst) (hf : freshCfg s = false) (hbo : r.bo < n) :
+    armOk s n r x = true := by simp [armOk, hf, hbo]
+
+/-- `WithRetry` (library backoff with `MaxElapsedTime`): the backoff has not said Stop in the epoch in
+which the record's own backoff object was constructed or last reset — whatever other keys did -/
+theorem armOk_fresh (s : St) (n : Nat) (r : Rec) (x : Inst) (hf : freshCfg s = true) (hb : r.born = x.retEpoch) :
+    armOk s n r x = true := by simp [armOk, hf, hb]
 
 /-- D6: `SetKey(k, start = false)` on an existing key does not touch its retry -/
 theorem pending_syncS_nostart (s : St) (k k' : Nat) (hp : Pending s k) : Pending (syncS false s k') k := by
